@@ -177,7 +177,8 @@ func c18Flows() []c18Flow {
 		{name: "revocation", token: true, prep: refreshPrep,
 			fire: func(st *c18State) c18Res {
 				o := st.w.Revoke(url.Values{"token": {st.tok.Value}}, authFor(st.w, st.client))
-				return c18Res{ok: o.Err == nil, errName: o.ErrName, crashed: o.Crashed, detail: world.ErrDetail(o.Err)}
+				// what the caller sees decides: a refusal written as HTTP 200 is a success to the client
+				return c18Res{ok: o.Err == nil || (!o.Crashed && o.Status/100 == 2), errName: o.ErrName, crashed: o.Crashed, detail: fmt.Sprintf("%s (HTTP %d)", world.ErrDetail(o.Err), o.Status)}
 			}},
 		{name: "par-push", prep: func(st *c18State) bool { return true },
 			fire: func(st *c18State) c18Res {
@@ -385,7 +386,8 @@ func c18One(c *run.Ctx, fl c18Flow, db, jwt bool, mk func() (*c18State, bool), r
 	read := !target.Write && target.Method != "BeginTX" && target.Method != "Commit" && target.Method != "Rollback"
 	// a read answered not-found / inactive is a legitimately missing record; a revoke-by-request-id that finds nothing is
 	// tolerated by design ("nothing to revoke")
-	benign := (f1.kind == "not_found" || f1.kind == "inactive") && (read || target.Method == "RevokeRefreshToken" || target.Method == "RevokeAccessToken")
+	// ("nothing to revoke"); so is a delete that finds nothing to delete (a row-counting store's answer, not a failure)
+	benign := (f1.kind == "not_found" || f1.kind == "inactive") && (read || target.Method == "RevokeRefreshToken" || target.Method == "RevokeAccessToken" || (f1.kind == "not_found" && strings.HasPrefix(target.Method, "Delete")))
 	c.Case(fmt.Sprintf("flow=%s db=%v fault=%s at=%s tx=%v second=%s -> delivered=%v err=%s", fl.name, db, f1.kind, target.Method, injectedInTx, map[bool]string{true: "none", false: f2.kind}[f2.at == -1], res.ok, res.errName))
 	if !injected {
 		return // the call sequence was shorter this time (cannot happen for deterministic flows)
